@@ -1,0 +1,85 @@
+//go:build verif
+
+package elgamal
+
+// Contracts for the deductive checker in /verif (comment-only; compiled only under the verif tag).
+// Group elements E are bound to the abstract abelian group with scalar action ("group"): gadd, gneg, gsmul.
+// A ciphertext is a pair (gamma, delta) built by CiphertextGroup().New(gamma, delta).
+
+//@ func (*PublicKey).PlaintextGroup
+//@   property C16
+//@   purefn
+//@   ensures result == algebra.StructureMustBeAs(pk.h.Structure())
+
+//@ func (*PublicKey).Generator
+//@   property C16
+//@   bind E group
+//@   purefn
+//@   ensures result == pk.PlaintextGroup().Generator()
+
+//@ func (*Ciphertext).Value
+//@   property C16
+//@   purefn
+//@   ensures result == ct.v
+
+//@ func (*Plaintext).Value
+//@   property C16
+//@   bind E group
+//@   purefn
+//@   ensures result == p.v
+
+//@ func (*Nonce).Value
+//@   property C16
+//@   purefn
+//@   ensures result == n.v
+
+// A public key is never the identity and never has torsion.
+//@ func NewPublicKey
+//@   property C16, C12
+//@   bind E group
+//@   purefn
+//@   ensures err == nil ==> result != nil && result.h == h && h != gzero() && h.IsTorsionFree()
+
+// The secret key a belongs to the public key h = [a]g; a is neither 0 nor 1.
+//@ func NewSecretKey
+//@   property C16, C12
+//@   bind E group
+//@   purefn
+//@   ensures err == nil ==> result != nil && result.a == a && result.PublicKey.h == gsmul(a, g) && !a.IsZero() && !a.IsOne() && g != gzero()
+
+// Decryption of (gamma, delta) is delta - [a]gamma.
+//@ func (*SecretKey).Decrypt
+//@   property C16
+//@   bind E group
+//@   ensures err == nil ==> result != nil && result.v == gadd(ciphertext.v.Components()[1], gneg(gsmul(sk.a, ciphertext.v.Components()[0])))
+
+// Representative(m) = (0, m); IdentityNoise(r) = ([r]g, [r]h); with the trapdoor ([r]g, [r*a]g).
+//@ func (*PublicKey).Representative
+//@   property C16
+//@   bind E group
+//@   purefn
+//@   ensures err == nil ==> result != nil && result.v == res(pk.CiphertextGroup().New(pk.PlaintextGroup().OpIdentity(), plaintext.v), 0)
+
+//@ func (*PublicKey).IdentityNoise
+//@   property C16
+//@   bind E group
+//@   purefn
+//@   ensures err == nil ==> result != nil && result.v == res(pk.CiphertextGroup().New(gsmul(nonce.v, pk.Generator()), gsmul(nonce.v, pk.h)), 0)
+
+//@ func (*SecretKey).IdentityNoise
+//@   property C16
+//@   bind E group
+//@   purefn
+//@   ensures err == nil ==> result != nil && result.v == res(sk.CiphertextGroup().New(gsmul(nonce.v, sk.Generator()), gsmul(nonce.v.Mul(sk.a), sk.Generator())), 0)
+
+//@ func (*PublicKey).EncryptWithNonce
+//@   property C16
+//@   ensures err == nil ==> result == res(pk.CiphertextOp(res(pk.Representative(plaintext), 0), res(pk.IdentityNoise(nonce), 0)), 0)
+
+//@ func (*PublicKey).ReRandomise
+//@   property C16
+//@   ensures err == nil ==> result == res(pk.CiphertextOp(c, res(pk.IdentityNoise(nonce), 0)), 0)
+
+//@ func (*PublicKey).Shift
+//@   property C16
+//@   ensures err == nil ==> result == res(pk.CiphertextOp(c, res(pk.Representative(delta), 0)), 0)
